@@ -75,6 +75,7 @@ type c06Case struct {
 	Files   map[string]c06File `json:"files"`
 	Data    map[string]any     `json:"data"`
 	Skipped bool               `json:"skipped,omitempty"`
+	Opt     *c06Opt            `json:"opt,omitempty"` // opt part (c06_opt.go)
 }
 
 func c06CompFile(ci int) string { return "components/Comp" + string(rune('A'+ci)) + ".vuego" }
@@ -1250,7 +1251,7 @@ func c06NRand(ctx core.Ctx) (multi, loop, nested int) {
 
 func (p *c06) Plan(ctx core.Ctx) int {
 	m, l, n := c06NRand(ctx)
-	return c06NSingle(ctx) + c06NPass(ctx) + c06NLayout(ctx) + c06NShadow(ctx) + m + l + n
+	return c06NSingle(ctx) + c06NPass(ctx) + c06NLayout(ctx) + c06NShadow(ctx) + c06NOpt(ctx) + m + l + n
 }
 
 func (p *c06) Gen(ctx core.Ctx, i int) any {
@@ -1271,6 +1272,11 @@ func (p *c06) Gen(ctx core.Ctx, i int) any {
 	}
 	if n := c06NShadow(ctx); i < n {
 		return c06BuildShadow(i)
+	} else {
+		i -= n
+	}
+	if n := c06NOpt(ctx); i < n {
+		return c06BuildOpt(i)
 	} else {
 		i -= n
 	}
@@ -1307,6 +1313,10 @@ func c06Render(c c06Case, src map[string]string) (string, error) {
 func (p *c06) Exec(ctx core.Ctx, cc any) core.Obs {
 	c := cc.(c06Case)
 	var o core.Obs
+	if c.Part == "opt" && c.Opt != nil {
+		c06ExecOpt(c, &o)
+		return o
+	}
 	if c.Skipped || len(c.Files) == 0 {
 		return o
 	}
